@@ -784,11 +784,27 @@ type RandHook func(n int) error
 // SetRand installs the per-run DRBG and an optional fault hook.
 func (s *Sim) SetRand(r *Rand, hook RandHook) { s.rand = r; s.randHook = hook }
 
+// ShortRead is returned by a RandHook to make the read deliver only its first N bytes before failing.
+type ShortRead struct {
+	N   int
+	Err error
+}
+
+func (e ShortRead) Error() string { return e.Err.Error() }
+
 // RandRead is crypto/rand.Read under simulation.
 func (s *Sim) RandRead(b []byte) (int, error) {
 	s.RandReads++
 	if s.randHook != nil {
 		if err := s.randHook(len(b)); err != nil {
+			// a short read: some bytes were delivered before the source failed
+			if sr, ok := err.(ShortRead); ok && sr.N > 0 && sr.N < len(b) {
+				if s.rand == nil {
+					s.rand = NewRand(1)
+				}
+				s.rand.Fill(b[:sr.N])
+				return sr.N, sr.Err
+			}
 			return 0, err
 		}
 	}
